@@ -32,7 +32,7 @@ def project(line, spec):
     # layout: R <r> O <o> T <t> C <c> M <m> K <k> Q <q> E <e>
     d = {t[i]: t[i + 1] for i in range(0, len(t) - 1, 2)}
     out = []
-    for key in ("R", "O", "T", "C", "M", "K", "Q", "E"):
+    for key in ("R", "O", "T", "C", "M", "K", "Q", "E", "F"):
         sel = spec.get(key)
         if not sel:
             continue
